@@ -93,6 +93,7 @@ struct RunOut {
   std::map<string, uint64_t> probes;     // reach probes (counts)
   std::map<string, uint64_t> counts;     // evaluation counters (comparisons, images, ...)
   uint64_t event_hash = 0;
+  std::set<uint64_t> shapes;             // distinct LSM shapes seen (files per level)
   bool nontrivial = false;
   string note;
 };
